@@ -116,3 +116,20 @@ func (n *BitcoinNode) VerifHandleMessage(ctx context.Context, connection net.Con
 func (n *BitcoinNode) VerifAccept(ctx context.Context) error {
 	return n.accept(ctx)
 }
+
+// VerifTakeOutgoing removes and returns the messages waiting in the outgoing queue, without
+// blocking (for a node whose sender thread is not running).
+func (n *BitcoinNode) VerifTakeOutgoing() []wire.Message {
+	var result []wire.Message
+	for {
+		select {
+		case msg, ok := <-n.outgoingMsgChannel.Channel:
+			if !ok {
+				return result
+			}
+			result = append(result, msg)
+		default:
+			return result
+		}
+	}
+}
